@@ -15,7 +15,11 @@ namespace nmtools::view
         auto v1 = view::fabs(array);
         auto v2 = view::power(v1,ord);
         auto v3 = view::sum(v2,axis,/*dtype*/None,/*initial*/None,keepdims);
-        auto v4 = view::power(v3,1.f/ord);
+        // take the root in the array's own floating point type: a float exponent made power_t
+        // compute pow in single precision when the sum is a 0-dim view (axis=None) of a double array
+        using element_t = meta::get_element_type_t<array_t>;
+        using root_t = meta::conditional_t<meta::is_floating_point_v<element_t>,element_t,float>;
+        auto v4 = view::power(v3,static_cast<root_t>(1)/ord);
         return v4;
     } // vector_norm
 } // nmtools::view
